@@ -10,6 +10,7 @@ import (
 	"github.com/ajitpratap0/GoSQLX/pkg/models"
 	"github.com/ajitpratap0/GoSQLX/pkg/sql/parser"
 
+	"verif/checks/c08/probe"
 	"verif/engine/common"
 	"verif/sqlgen"
 )
@@ -279,7 +280,7 @@ func Check() *common.Check {
 		Level:     "exploration",
 		CrashSafe: true,
 		Rule: "scripts S1;...;Sn: all sequences of n<=2 over the full pool (9 valid statements - one per kind plus DESCRIBE / SHOW / REPLACE, which do not start with a recovery synchronisation keyword - and every failing corruption of them: first / second / last token deleted, middle token duplicated or replaced, truncated after 2, 3, 4 tokens and at half, none containing a statement-starting keyword after its first token), n<=3 over the valid statements and an even spread of 14 corruptions " +
-			"and n<=5 (quick) / n<=6 (thorough) over 2 valid + 3 corrupt, each with and without a trailing semicolon; every rejected proper prefix (up to the first inner statement-starting keyword) of every clause-option, DML and DDL statement of the sqlgen space, followed by SHOW TABLES / a SELECT / a malformed non-keyword segment, and between two neighbours; every single-token deletion / duplication / replacement inside every representative expression of sqlgen (in WHERE and in the select list) before a follower and between two neighbours; plus all lexeme sequences of length <=3 (quick) / <=4 (thorough) over a 24-lexeme alphabet for termination and the iff clause. " +
+			"and n<=5 (quick) / n<=6 (thorough) over 2 valid + 3 corrupt, each with and without a trailing semicolon; every rejected proper prefix (up to the first inner statement-starting keyword) of every clause-option, DML and DDL statement of the sqlgen space, followed by SHOW TABLES / a SELECT / a malformed non-keyword segment, and between two neighbours; every proper prefix of those statements followed by a statement exactly at the nesting limit (which must be returned); every single-token deletion / duplication / replacement inside every representative expression of sqlgen (in WHERE and in the select list) before a follower and between two neighbours; plus all lexeme sequences of length <=3 (quick) / <=4 (thorough) over a 24-lexeme alphabet for termination and the iff clause. " +
 			"distinct = distinct script text; non-trivial = script mixes well-formed and malformed segments",
 		Assume: []string{"a segment is well-formed iff gosqlx.Parse accepts it alone", "parser-token count of a segment = number of generator lexemes; verified at run time on the accepted statement each segment was cut from, and where it does not hold (keyword pairs the tokenizer merges) the token-index clause is replaced by the reported-column clause alone"},
 		Enumerate: func(e *common.Enum) {
@@ -373,6 +374,45 @@ func Check() *common.Check {
 			sqlgen.ClauseOptions(prefixes)
 			sqlgen.DMLCases(prefixes)
 			sqlgen.DDLCases(prefixes)
+			// "loses no good statement", at the parser's nesting limit: every proper prefix of every clause-option statement
+			// (here also the ones that run into an inner SELECT: whatever recovery makes of them, the text after the next
+			// semicolon is a well-formed statement) followed by a statement that sits exactly at the nesting limit.  A failed
+			// statement that leaves anything behind in the parser's nesting bookkeeping loses that statement.
+			nest := probe.NestSQL(probe.MaxNest())
+			nestTree := ""
+			if t, err := gosqlx.Parse(nest); err == nil {
+				nestTree = sqlgen.DumpNorm(t.Statements)
+			}
+			seenNest := map[string]bool{}
+			nestFollower := func(name string, st sqlgen.S) {
+				if nestTree == "" {
+					return
+				}
+				for n := 1; n < len(st.Toks); n++ {
+					pre := sqlgen.Render(st.Toks[:n], sqlgen.LSpaced)
+					if seenNest[pre] {
+						continue
+					}
+					seenNest[pre] = true
+					last := strings.ToUpper(st.Toks[n-1].S)
+					e.Do("nest-follower|"+pre, func(c *common.Ctx) {
+						script := pre + " ;\n" + nest
+						c.Input(script)
+						stmts, _ := gosqlx.ParseWithRecovery(script)
+						got := ""
+						if len(stmts) > 0 {
+							got = sqlgen.DumpNorm([]any{stmts[len(stmts)-1]})
+						}
+						if got != nestTree {
+							c.Fail("good-statement-lost:at-nesting-limit@prefix-last:"+last, fmt.Sprintf("the statement after the semicolon is well-formed (it sits exactly at the nesting limit) but recovery does not return it as the last statement: %d statements returned", len(stmts)))
+						}
+						c.Outcome("nest-follower")
+						c.NonTrivial()
+					})
+				}
+			}
+			sqlgen.ClauseOptions(nestFollower)
+			sqlgen.DMLCases(nestFollower)
 			// every single-token deletion / duplication / replacement inside every representative expression (CASE, casts,
 			// calls with their clauses, sub-queries are excluded by the keyword rule ...), in a WHERE clause and in the select
 			// list: expression-level keywords (END, ELSE, WHEN, AS ...) must not be taken for statement boundaries
